@@ -252,6 +252,64 @@ func encUnit(ki int, tier string) harness.Unit {
 	}}
 }
 
+// retryUnit: nonces for which the KDF output is all zero (1-byte plaintext: about 1 nonce in 256)
+// make the standard go back to step A1; the encryptor must then produce exactly the ciphertext of
+// the NEXT nonce of the stream and consume 80 bytes.
+func retryUnit(ki int) harness.Unit {
+	return harness.Unit{Name: fmt.Sprintf("nonce-retry/key%d", ki), Run: func(c *harness.Ctx) {
+		key := sm2k.Alphabet()[ki]
+		priv := key.Lib()
+		msg := []byte{0x5a}
+		found := 0
+		for i := 0; i < 4000 && found < 3; i++ {
+			head := pu.Msg(50000+i*41, 40)
+			k1 := refsm2.NonceFromBytes(head)
+			if _, ok := refsm2.Encrypt(key.Pub, msg, k1, refsm2.C1C3C2); ok {
+				continue
+			}
+			// first nonce is rejected; choose a following 40 bytes whose nonce is accepted
+			var second []byte
+			var k2 *big.Int
+			for j := 0; ; j++ {
+				second = pu.Msg(90000+i*7+j, 40)
+				k2 = refsm2.NonceFromBytes(second)
+				if _, ok := refsm2.Encrypt(key.Pub, msg, k2, refsm2.C1C3C2); ok {
+					break
+				}
+			}
+			found++
+			for mode := 0; mode < 3; mode++ {
+				tag := fmt.Sprintf("%s |M|=1 first nonce gives an all-zero KDF output (stream %d) %s", key.Name, i, modeNames[mode])
+				c.Add("evaluations", 1)
+				c.DistinctS("nontrivial", tag)
+				want, _ := refCT(mode, key.Pub, msg, k2)
+				st := &stream{head: append(append([]byte{}, head...), second...), budget: 40 * 6}
+				var ct []byte
+				var err error
+				if r := harness.Try(func() { ct, err = libEncrypt(mode, &priv.PublicKey, msg, st) }); r != nil {
+					c.Violate("encrypt-retry-panic:"+modeNames[mode], fmt.Sprintf("[%s] %v", tag, r), nil, nil)
+					continue
+				}
+				if err != nil || !bytes.Equal(ct, want) {
+					c.Violate("encrypt-retry-value:"+modeNames[mode], fmt.Sprintf("[%s] after the rejected nonce the ciphertext is %s (err %v); the standard prescribes the ciphertext of the next nonce %s", tag, pu.Hex(ct), err, pu.Hex(want)), nil, nil)
+					continue
+				}
+				if st.consumed != 80 {
+					c.Violate("encrypt-retry-consumed", fmt.Sprintf("[%s] consumed %d bytes, want 80", tag, st.consumed), nil, nil)
+				}
+				var pt []byte
+				if !c.Guard("decrypt-panic:retry", "decrypt "+tag, nil, func() { pt, err = libDecrypt(mode, priv, ct) }) {
+					if err != nil || !bytes.Equal(pt, msg) {
+						c.Violate("decrypt-retry-value:"+modeNames[mode], fmt.Sprintf("[%s] own ciphertext does not decrypt: %v", tag, err), nil, nil)
+					}
+				}
+			}
+		}
+		c.Note("rejected first nonces found for %s: %d", key.Name, found)
+		c.Sample(fmt.Sprintf("%s: 1-byte plaintext with a first nonce whose KDF output is zero, followed by a valid nonce", key.Name))
+	}}
+}
+
 // invalidCurvePoints returns points of order 2 and 3 on curves y^2 = x^3 + a x + b' with b' != b.
 func invalidCurvePoints() (pts []refsm2.Point, orders []int) {
 	p, a := refsm2.P, refsm2.A
@@ -430,7 +488,7 @@ func field(mode, i, n, L int) string {
 var Prop = &harness.Prop{
 	ID:    "C02",
 	Level: "exploration",
-	Rule: "encryption: full product keys x plaintext lengths x nonces (k=1,2,n-1, patterns, 1-byte reads, and per key the first k whose C1 / shared point has a coordinate with a leading zero byte) x {C1C3C2, C1C2C3, ASN.1}: ciphertext bytes equal the independent GM/T 0003.4 reference, randomness consumed = 40 bytes, the STANDARD ciphertext decrypts to the plaintext; empty plaintext must return within a 64-nonce budget. forgeries (fault enumeration): every single-byte substitution from {b^1,b^0x80,00,ff} and every truncation of valid ciphertexts in all three forms, ciphertext for another key, C1=(0,0), and C1 of order 2 and 3 on curves b'!=b with C2/C3 built for every guess of d mod q: an error is required. Distinct/non-trivial = distinct case labels / distinct mutated inputs.",
+	Rule: "encryption: full product keys x plaintext lengths x nonces (k=1,2,n-1, patterns, 1-byte reads, and per key the first k whose C1 / shared point has a coordinate with a leading zero byte) x {C1C3C2, C1C2C3, ASN.1}: ciphertext bytes equal the independent GM/T 0003.4 reference, randomness consumed = 40 bytes, the STANDARD ciphertext decrypts to the plaintext; empty plaintext must return within a 64-nonce budget; the retry branch is driven by nonces found by search whose KDF output for a 1-byte plaintext is all zero (the next nonce's ciphertext and 80 consumed bytes are required). forgeries (fault enumeration): every single-byte substitution from {b^1,b^0x80,00,ff} and every truncation of valid ciphertexts in all three forms, ciphertext for another key, C1=(0,0), and C1 of order 2 and 3 on curves b'!=b with C2/C3 built for every guess of d mod q: an error is required. Distinct/non-trivial = distinct case labels / distinct mutated inputs.",
 	Assumptions: []string{"refsm2/refsm3 correct (GM/T 0003.5 examples)", "nonce k = int(40 bytes) mod (n-1) + 1", "the leading point-format byte 0x04 is not mutated (the statement does not list it)"},
 	Bounds: func(tier string) string {
 		if tier == "thorough" {
@@ -446,6 +504,9 @@ var Prop = &harness.Prop{
 		}
 		for i, k := range sm2k.Alphabet() {
 			u = append(u, encUnit(i, tier))
+			if tier == "thorough" || small[k.Name] {
+				u = append(u, retryUnit(i))
+			}
 			if tier == "thorough" || small[k.Name] {
 				u = append(u, forgeUnit(i, tier))
 			}
